@@ -26,7 +26,7 @@ const A_BIG: &[&str] = &[" ", "a", "bc", "-", "\n", "é", "你", "中", "d-e", "
     "\x1b[31m", "\x1b[0m", "\x1b[1~", "\x1b[@", "\x1b]8;;x\x1b\\"];
 const A_ADVERSARIAL: &[&str] = &[" ", "a", "-", "\n", "\r", "\t", "é", "你", "中", "\u{ad}", "\u{a0}", "\u{3000}", "\u{200b}", "\u{301}", "😂", "\x1b", "[", "]", "m", "~", "\x07", "\\"];
 const A_ANSI: &[&str] = &["a", " ", "你", "\u{301}", "\x1b[31m", "\x1b[0m", "\x1b[1~", "\x1b[@", "\x1b[?", "\x1b]8;;x\x1b\\", "\x1b]0;t\x07", "\x1b[", "\x1b", "m", "\\", "[", "\x7f", "?"];
-const A_WORDS: &[&str] = &[" ", "a", "b", "-", "\t", "\u{a0}", "\u{200b}", "\u{2060}", "你", "中", "😂", "😭", "\u{ad}", "\n", "\x1b[31m", "\x1b[0m", ")", "é", "\u{3000}"];
+const A_WORDS: &[&str] = &[" ", "a", "b", "-", "\t", "\u{a0}", "\u{200b}", "\u{2060}", "你", "中", "😂", "😭", "\u{ad}", "\n", "\x1b[31m", "\x1b[0m", ")", "é", "\u{3000}", "\x1b]8;;x\x1b\\", "\x1b]0;t\x07"];
 const A_WORD: &[&str] = &["a", "b", "-", "1", "你", "\u{301}", "é", "\x1b[31m", "\x1b[0m", "\x1b[1~", "😂", "\u{200b}"];
 const A_INPLACE: &[&str] = &[" ", "a", "bc", "\n", "é", "你", "\r", "\t"];
 const A_DEDENT: &[&str] = &[" ", "\t", "a", "\n", "\r\n", "b", "\u{3000}"];
@@ -371,11 +371,11 @@ fn run_property(prop: &str, ctx: &mut Ctx) {
     match prop {
         "C01" => {
             ctx.wrap_suite("C01.wrap.slices", "every line = indent ++ in-order slice (++ inserted hyphen); only spaces / line endings skipped; borrowed when possible; no trailing space; fill = lines joined",
-                A_WRAP, l(4, 5), option_grid(true), widths_small(), l(2, 3), if th { 300_000 } else { 40_000 }, props_wrap::c01_slices);
+                A_WRAP, l(4, 5), option_grid(true), widths_small(), l(2, 3), if th { 2_000_000 } else { 60_000 }, props_wrap::c01_slices);
         }
         "C02" => {
             ctx.wrap_suite("C02.wrap.first_fit_fits", "first-fit: line width <= width unless the part after the indent is one unbreakable fragment",
-                A_WRAP, l(4, 5), first_fit_only(option_grid(true)).into_iter().filter(|o| o.spl != Spl::Every2).collect(), vec![0, 1, 2, 3, 4, 5, 6, 8], l(2, 3), if th { 300_000 } else { 40_000 }, props_wrap::c02_fits);
+                A_WRAP, l(4, 5), first_fit_only(option_grid(true)).into_iter().filter(|o| o.spl != Spl::Every2).collect(), vec![0, 1, 2, 3, 4, 5, 6, 8], l(2, 3), if th { 2_000_000 } else { 60_000 }, props_wrap::c02_fits);
         }
         "C03" => {
             #[cfg(feature = "full")]
@@ -384,12 +384,12 @@ fn run_property(prop: &str, ctx: &mut Ctx) {
                 frag_cases(ctx, "C03.optimal_fit.minimal_cost", "cost(returned) == min over all 2^(n-1) arrangements (documented cost model, exact integers) and <= cost(first-fit)",
                     l(4, 5), c03_optimal, true, pens);
                 frag_cases(ctx, "A6.smawk.call_shape", "assumed contract A6 of smawk::online_column_minima (call arguments and returned table shape)", l(4, 5), a6_smawk_shape, false, vec![DEFAULT_PEN]);
-                frag_random(ctx, "A6.smawk.call_shape.random", "same, longer random sequences", if th { 300_000 } else { 30_000 }, 40, true, a6_smawk_shape, false);
-                frag_random(ctx, "C03.optimal_fit.minimal_cost.random", "same, random sequences", if th { 300_000 } else { 30_000 }, if th { 14 } else { 10 }, false, c03_optimal, true);
+                frag_random(ctx, "A6.smawk.call_shape.random", "same, longer random sequences", if th { 2_000_000 } else { 40_000 }, 40, true, a6_smawk_shape, false);
+                frag_random(ctx, "C03.optimal_fit.minimal_cost.random", "same, random sequences", if th { 2_000_000 } else { 40_000 }, if th { 14 } else { 10 }, false, c03_optimal, true);
                 let grid: Vec<Opts> = option_grid(true).into_iter().filter(|o| o.algo == Algo::OptimalFit && !o.break_words).collect();
                 ctx.text_grid("C03.wrap.minimal_cost_text", "optimal-fit, no force-breaking: each paragraph's lines are a minimum-cost arrangement of its fragments for the widths actually rendered",
                     &[" ", "a", "bc", "def", "é", "你", "g-h", "\x1b[31m"], l(4, 5), grid.clone(), vec![2, 3, 4, 5, 6, 8, 11], props_wrap::c03_text);
-                ctx.text_random("C03.wrap.minimal_cost_text.random", "same, longer random texts", &[" ", "a", "bc", "def", "é", "你", "g-h", "中文", "ijkl"], 16, if th { 200_000 } else { 30_000 }, grid, props_wrap::c03_text);
+                ctx.text_random("C03.wrap.minimal_cost_text.random", "same, longer random texts", &[" ", "a", "bc", "def", "é", "你", "g-h", "中文", "ijkl"], 16, if th { 1_000_000 } else { 40_000 }, grid, props_wrap::c03_text);
             }
         }
         "C04" => {
@@ -397,8 +397,8 @@ fn run_property(prop: &str, ctx: &mut Ctx) {
             grid.truncate(if th { 1000 } else { 1000 });
             ctx.text_grid("C04.total.public_api", "wrap, fill, fill_inplace, unfill, refill, indent, dedent, wrap_columns, display_width, find_words, split_words, break_words and both algorithms return (no panic, no hang, no overflow error)",
                 A_ADVERSARIAL, l(2, 3), grid.clone(), vec![0, 1, 2, 7, usize::MAX], c04_total);
-            ctx.text_random("C04.total.public_api.random", "same, long random texts", A_ADVERSARIAL, 30, if th { 300_000 } else { 40_000 }, grid, c04_total);
-            frag_random(ctx, "C04.total.fragments", "both algorithms return for arbitrary finite f64 fragments", if th { 300_000 } else { 50_000 }, 12, true, |c| {
+            ctx.text_random("C04.total.public_api.random", "same, long random texts", A_ADVERSARIAL, 30, if th { 2_000_000 } else { 60_000 }, grid, c04_total);
+            frag_random(ctx, "C04.total.fragments", "both algorithms return for arbitrary finite f64 fragments", if th { 2_000_000 } else { 60_000 }, 12, true, |c| {
                 let _ = textwrap::wrap_algorithms::wrap_first_fit(&c.frags, &c.widths);
                 #[cfg(feature = "full")]
                 let _ = textwrap::wrap_algorithms::wrap_optimal_fit(&c.frags, &c.widths, &c.penalties());
@@ -407,31 +407,31 @@ fn run_property(prop: &str, ctx: &mut Ctx) {
         }
         "C05" => {
             ctx.wrap_suite("C05.wrap.shortcut", "fast path == slow path for wrap_single_line and fill; a paragraph that fits is returned as one line",
-                &[" ", "a", "bc", "é", "你", "\x1b[31m", "\n", "-", "\t"], l(4, 5), option_grid(false), vec![0, 1, 2, 3, 4, 5, 6, 7, 8, 10, 12, 16], l(2, 3), if th { 300_000 } else { 40_000 }, props_wrap::c05_shortcut);
+                &[" ", "a", "bc", "é", "你", "\x1b[31m", "\n", "-", "\t"], l(4, 5), option_grid(false), vec![0, 1, 2, 3, 4, 5, 6, 7, 8, 10, 12, 16], l(2, 3), if th { 2_000_000 } else { 60_000 }, props_wrap::c05_shortcut);
         }
         "C06" => {
             frag_cases(ctx, "C06.first_fit.partition", "lines are non-empty contiguous runs concatenating to the input; empty input -> one empty line", l(4, 5), c06_first_fit, false, vec![DEFAULT_PEN]);
-            frag_random(ctx, "C06.first_fit.partition.random", "same, arbitrary finite f64", if th { 400_000 } else { 50_000 }, 16, true, c06_first_fit, false);
+            frag_random(ctx, "C06.first_fit.partition.random", "same, arbitrary finite f64", if th { 3_000_000 } else { 60_000 }, 16, true, c06_first_fit, false);
             #[cfg(feature = "full")]
             {
                 frag_cases(ctx, "A6.smawk.call_shape", "assumed contract A6 of smawk::online_column_minima (call arguments and returned table shape)", l(4, 5), a6_smawk_shape, false, vec![DEFAULT_PEN]);
                 frag_cases(ctx, "C06.optimal_fit.partition", "same for optimal-fit", l(4, 5), c06_optimal_fit, false, vec![DEFAULT_PEN, [0, 0, 1, 0, 0]]);
-                frag_random(ctx, "C06.optimal_fit.partition.random", "same, arbitrary finite f64", if th { 400_000 } else { 50_000 }, 16, true, c06_optimal_fit, false);
+                frag_random(ctx, "C06.optimal_fit.partition.random", "same, arbitrary finite f64", if th { 3_000_000 } else { 60_000 }, 16, true, c06_optimal_fit, false);
             }
         }
         "C07" => {
             frag_cases(ctx, "C07.first_fit.greedy", "a new line starts exactly when the line is non-empty and acc + width + penalty > line width", l(4, 5), c07_greedy, false, vec![DEFAULT_PEN]);
-            frag_random(ctx, "C07.first_fit.greedy.random", "same, arbitrary finite f64", if th { 400_000 } else { 50_000 }, 16, true, c07_greedy, false);
+            frag_random(ctx, "C07.first_fit.greedy.random", "same, arbitrary finite f64", if th { 3_000_000 } else { 60_000 }, 16, true, c07_greedy, false);
             ctx.wrap_suite("C07.wrap.greedy_text", "ASCII separator, hyphen or no splitter, no force-breaking: wrap == the greedy rule applied to the space-delimited words cut at the splitter's split points",
-                A_WRAP, l(4, 5), first_fit_only(option_grid(true)).into_iter().filter(|o| o.sep == Sep::Ascii && o.spl != Spl::Every2 && !o.break_words).collect(), vec![0, 1, 2, 3, 4, 5, 6, 8], l(3, 3), if th { 300_000 } else { 40_000 }, props_wrap::c07_text);
+                A_WRAP, l(4, 5), first_fit_only(option_grid(true)).into_iter().filter(|o| o.sep == Sep::Ascii && o.spl != Spl::Every2 && !o.break_words).collect(), vec![0, 1, 2, 3, 4, 5, 6, 8], l(3, 3), if th { 2_000_000 } else { 60_000 }, props_wrap::c07_text);
         }
         "C08" => {
             ctx.wrap_suite("C08.wrap.indent", "line 0 starts with initial_indent, later lines with subsequent_indent; remainder depends only on the indents' widths",
-                A_WRAP, l(4, 5), option_grid(true), widths_small(), l(2, 3), if th { 300_000 } else { 40_000 }, props_wrap::c08_indent);
+                A_WRAP, l(4, 5), option_grid(true), widths_small(), l(2, 3), if th { 2_000_000 } else { 60_000 }, props_wrap::c08_indent);
         }
         "C09" => {
             ctx.wrap_suite("C09.wrap.paragraphs", "wrap(a+E+b) begins with wrap(a); the rest does not depend on a; fill = join; LF<->CRLF equivariance",
-                &[" ", "a", "bc", "\n", "é", "-", "\t"], l(5, 6), option_grid(false), vec![0, 1, 2, 3, 5, 8], l(2, 3), if th { 300_000 } else { 40_000 }, props_wrap::c09_paragraphs);
+                &[" ", "a", "bc", "\n", "é", "-", "\t"], l(5, 6), option_grid(false), vec![0, 1, 2, 3, 5, 8], l(2, 3), if th { 2_000_000 } else { 60_000 }, props_wrap::c09_paragraphs);
             let mut g = option_grid(false);
             for o in g.iter_mut() {
                 o.crlf = true;
@@ -464,7 +464,7 @@ fn run_property(prop: &str, ctx: &mut Ctx) {
         }
         "C14" => {
             let grid: Vec<Opts> = option_grid(false).into_iter().filter(|o| o.initial.is_empty() && o.subsequent.is_empty()).collect();
-            ctx.wrap_suite("C14.fill.idempotent", "fill(fill(t)) == fill(t) under the stated conditions", A_WRAP, l(4, 5), grid, vec![1, 2, 3, 4, 5, 6, 8, 12], l(2, 3), if th { 300_000 } else { 40_000 }, props_wrap::c14_idempotent);
+            ctx.wrap_suite("C14.fill.idempotent", "fill(fill(t)) == fill(t) under the stated conditions", A_WRAP, l(4, 5), grid, vec![1, 2, 3, 4, 5, 6, 8, 12], l(2, 3), if th { 2_000_000 } else { 60_000 }, props_wrap::c14_idempotent);
         }
         "C15" => {
             ctx.strings("C15.unfill.structural", "indents are prefixes made of prefix characters; no interior line break; line-ending detection", A_UNFILL, l(5, 6), vec![0], vec![""], c15_structural);
